@@ -3,20 +3,56 @@ from .num import Num, Poly, State, Limit, entails
 from .awslib import AwsHooks, in_bounds, MEMFNS
 
 
-def access_sites(fn):
-    """(element id, kind, node, detail) for memory-primitive calls, subscripts and scalar dereferences"""
+def access_sites(fn, include_addr=False):
+    """(element id, kind, node) for memory-primitive calls, subscripts and scalar dereferences.
+    `&a[i]` and `&*p` compute an address and are not accesses (unless include_addr: then the element addressed must exist,
+    for code that dereferences the resulting pointer through ->)."""
     sites = []
+
+    def rec(n, eid, addr_ctx):
+        if n is None or n.get("k") == "ref":
+            return
+        k = n["k"]
+        if k == "call":
+            if n.get("callee") in MEMFNS:
+                sites.append((eid, "mem", n))
+            rec(n.get("fn"), eid, False)
+            for a in n.get("a", []):
+                rec(a, eid, False)
+            return
+        if k == "index":
+            if not addr_ctx or include_addr:
+                sites.append((eid, "index", n))
+            rec(n["a"][0], eid, False)
+            rec(n["a"][1], eid, False)
+            return
+        if k == "un" and n["op"] == "deref":
+            t = fn.unit.types[n["t"]] if n.get("t", -1) >= 0 else {}
+            if not addr_ctx and ("w" in t or t.get("ptr")):
+                sites.append((eid, "deref", n))
+            rec(n["a"][0], eid, False)
+            return
+        if k == "un" and n["op"] == "addr":
+            rec(n["a"][0], eid, True)
+            return
+        if k == "member":
+            # &p->f : the base pointer is not dereferenced for a field address; p->f in value context reads the field only
+            rec(n["a"][0], eid, addr_ctx if not n["arrow"] else False)
+            return
+        if k == "decl":
+            for v in n["vars"]:
+                rec(v.get("init"), eid, False)
+            return
+        if k == "asm":
+            for c in n.get("outputs", []) + n.get("inputs", []):
+                rec(c, eid, False)
+            return
+        for c in n.get("a", []) or []:
+            rec(c, eid, False)
+
     for b in fn.blocks.values():
         for e in b.elems:
-            for n in fn.walk(e):
-                if n["k"] == "call" and n.get("callee") in MEMFNS:
-                    sites.append((e["id"], "mem", n))
-                elif n["k"] == "index":
-                    sites.append((e["id"], "index", n))
-                elif n["k"] == "un" and n["op"] == "deref":
-                    t = fn.unit.types[n["t"]] if n.get("t", -1) >= 0 else {}
-                    if "w" in t or t.get("ptr"):
-                        sites.append((e["id"], "deref", n))
+            rec(e, e["id"], False)
     return sites
 
 
